@@ -304,7 +304,7 @@ impl DiskCache {
 
 //@ extract chunk_cache/src/disk.rs in `impl DiskCache` fn random_item
 //@ ret r
-//@ rules R18
+//@ rules cacheacct.R18
 //@ subst `rand::random::<usize>()` => `vx_random_usize()` :: R7 outline: the random draw is an arbitrary usize
 //@ contract
         requires state.num_items as int == msum(state.inner@, false),
@@ -386,7 +386,7 @@ impl DiskCache {
 //@ to-before `drop(state);`
 //@ sig `fn put_cs(&self, state: &mut CacheState, key: &Key, cache_item: CacheItem) -> (r: Result<(HashSet<PathBuf>, Vec<PathBuf>), ChunkCacheError>)`
 //@ epilogue `Ok((overlapping_item_paths, evicted_paths))`
-//@ rules R4a R18
+//@ rules R4a cacheacct.R18
 //@ subst `self.maybe_evict(&mut state,` => `self.maybe_evict(state,` :: R11 guard erasure: `&mut MutexGuard<CacheState>` is passed where `&mut CacheState` is meant
 //@ subst `state.inner.entry(key.clone()).or_default()` => `vx_entry_or_default(&mut state.inner, key.clone())` :: R7 outline: `Entry` API; the outlined fn's body is this expression, its contract (view of the returned list; map = old map with the key bound to the final list) is assumed
 //@ contract
